@@ -18,7 +18,13 @@ CFG = dict(
                  "5": "removal: a failed connection was not reported to the disconnect callback / kept its table entry / the callback named another record / a newer (or unharmed) connection under the name lost its table entry",
                  "6": "shutdown: after the context was cancelled the forwarding loop or a peer goroutine of the proxy is still alive at a quiescent point, or envelopes are still handed on",
                  "7": "end-to-end: an RPC through the real Proxy ended differently from the same RPC on a direct connection"},
-    rule="lock-step in synctest bubbles on the real goat.Proxy with scripted peer transports",
+    rule="lock-step in synctest bubbles on the real goat.Proxy with scripted peer transports, compared with every outcome of the model over "
+         "all orders of its internal rules: 6 third-peer roles (stuck writer, failing reader, failing writer, dial error, slow dial, none) x "
+         "sources (honest / forged / header-less / nil envelope, also from the third peer) x sequential / concurrent senders x 3 or 18 "
+         "envelopes towards the third peer, mixed with live p<->q traffic; re-attachment before / after / without the failure (read, write, "
+         "blocked write) of the old connection, twice; the context cancelled at EVERY step of each of these (quick: a third of the positions "
+         "of the long ones); transports that ignore their context; faults and cancellation in ONE step (also cancelling from inside the "
+         "forwarding loop), repeated, judged by the predicates alone; seeded random walks with faults; free-running stress with forged sources",
     assumptions=["payloads are opaque to the proxy (tokens)",
                  "peer transports honour their context in Read and in a blocked Write (the shutdown clause; transports that do not are exercised too and then only the model comparison applies); the newConnection callback returns",
                  "quiescence = testing/synctest's durable blocking; goroutine roles are read from runtime.Stack frames"],
